@@ -146,11 +146,15 @@ Section Quotient.
   Definition live : list nat := filter (fun q => negb (dropped (Some q))) K.
   Definition qstates : list nat := filter (fun q => Nat.eqb (cname q) q) live.
 
+  (* target of class representative r on a: none when it leads into the omitted trap class *)
+  Definition qtarget (r a : nat) : option nat :=
+    match kstep m K (Some r) a with
+    | Some t => if dropped (Some t) then None else Some (cname t)
+    | None => None
+    end.
+
   Definition qrow (r : nat) : list (nat * nat) :=
-    flat_map (fun a => match kstep m K (Some r) a with
-                       | Some t => if dropped (Some t) then [] else [(a, cname t)]
-                       | None => []
-                       end) (d_syms m).
+    flat_map (fun a => match qtarget r a with Some v => [(a, v)] | None => [] end) (d_syms m).
 
   Definition qtrans : list (nat * list (nat * nat)) := map (fun r => (r, qrow r)) qstates.
 
